@@ -184,22 +184,28 @@ Example C07_derived_usage_consul_example :
 Proof. exact usage_repaired_example. Qed.
 
 (* ---- kind-service-names ---- *)
-(* FULL STATEMENT (still false): forall s, CReach s -> ksn s = recompute_ksn s.  Two reachable states
-   with a row no registration or config entry justifies:
-   (1) an instance re-registered under another name (or kind): a re-registration never passes through
-       deleteServiceTxn, so the old (kind, name) pair stays;
-   (2) a service-defaults entry that loses its Destination by an update: only the delete path removes
-       the (destination, name) pair.
-   (The third class, a name shared by instances of two kinds, is repaired by /repo 0bb54ea:
-   C07_derived_kindnames_shared_example.) *)
+(* FULL STATEMENT (still false): forall s, CReach s -> ksn s = recompute_ksn s.  A reachable state with
+   a row no registration or config entry justifies: an instance re-registered under another name (or
+   kind) -- a re-registration never passes through deleteServiceTxn, so the old (kind, name) pair
+   stays.
+   (Two other classes are repaired: a name shared by instances of two kinds, /repo 0bb54ea,
+   C07_derived_kindnames_shared_example; a service-defaults entry that loses its Destination by an
+   update, /repo 0d0f3e6, C07_derived_kindnames_destination_example.) *)
 Theorem C07_derived_kindnames_refuted :
-  (exists s, CReach s /\ ("", "db") ∈ ksn s /\ ("", "db") ∉ recompute_ksn s /\ ksn s ≠ recompute_ksn s) /\
-  (exists s, CReach s /\ ("destination", "ext") ∈ ksn s /\ recompute_ksn s = ∅).
-Proof.
-  split.
-  - exists (run ksn_log2 st0).1. split; [apply CReach_run|exact kindnames_witness2].
-  - exists (run ksn_log3 st0).1. split; [apply CReach_run|exact kindnames_witness3].
-Qed.
+  exists s, CReach s /\ ("", "db") ∈ ksn s /\ ("", "db") ∉ recompute_ksn s /\ ksn s ≠ recompute_ksn s.
+Proof. exists (run ksn_log2 st0).1. split; [apply CReach_run|exact kindnames_witness2]. Qed.
+
+(* the history that used to leave the (destination, name) row behind; and the same under a
+   terminating wildcard, where the destination's wildcard association used to stay *)
+Example C07_derived_kindnames_destination_example :
+  ("destination", "ext") ∈ ksn (run (take 1 ksn_log3) st0).1 /\
+  let s := (run ksn_log3 st0).1 in ksn s = ∅ /\ recompute_ksn s = ∅.
+Proof. exact kindnames_dest_repaired_example. Qed.
+
+Example C07_derived_gateway_destination_example :
+  is_Some (gws (run (take 2 gws_dest_log) st0).1 !! ("tgw", "ext", 0)) /\
+  let s := (run gws_dest_log st0).1 in gws s !! ("tgw", "ext", 0) = None /\ stored_gws s = recompute_gws s.
+Proof. exact gateway_dest_repaired_example. Qed.
 
 (* kind-service-names equals its recomputation in every state reached under a naming discipline D:
    every instance key (node, service id) is always registered with the same name, kind, native flag
@@ -351,6 +357,8 @@ Print Assumptions C07_derived_usage_all.
 Print Assumptions C07_derived_usage_confs_example.
 Print Assumptions C07_derived_usage_example.
 Print Assumptions C07_derived_kindnames_refuted.
+Print Assumptions C07_derived_kindnames_destination_example.
+Print Assumptions C07_derived_gateway_destination_example.
 Print Assumptions C07_derived_kindnames_partial.
 Print Assumptions C07_derived_kindnames_example.
 Print Assumptions C07_derived_kindnames_shared_example.
